@@ -291,6 +291,33 @@ def cursor_typestate(ctx, rep, clause):
             rep.ob('EXC-cursor', f'{m.fq}: {c.n_reads} cursor read(s)', m.loc(), True,
                    'every read at the cursor is dominated by a bounds test with no advance in between' +
                    (' (requires a checked cursor at entry)' if n in requires else ''), c.n_reads > 0, clause)
+    # look-ahead reads: self.sequence[<anything but the cursor itself>] (an index, not a slice) has no bounds test
+    # in the typestate above; it is sound only under a test that compares that very index with the length
+    from ..guards import dominating_tests
+    for n, m in sorted(methods.items()):
+        for x in walk_own(m.node):
+            if isinstance(x, ast.Subscript) and norm_stmt(x.value) in ('self.sequence', 'self._sequence') and \
+                    not isinstance(x.slice, ast.Slice) and norm_stmt(x.slice) != 'self.position' and \
+                    isinstance(x.ctx, ast.Load):
+                idx = norm_stmt(x.slice)
+                guarded = False
+                for t, pol in dominating_tests(m.node, x):
+                    tt = norm_stmt(t)
+                    if idx in tt and 'len(self.sequence)' in tt and pol:
+                        guarded = True
+                # a short-circuit conjunct to the left inside the same test also guards
+                for y in walk_own(m.node):
+                    if isinstance(y, ast.BoolOp) and isinstance(y.op, ast.And):
+                        for i_, v_ in enumerate(y.values):
+                            if any(z is x for z in ast.walk(v_)):
+                                left = ' '.join(norm_stmt(w) for w in y.values[:i_])
+                                if idx in left and 'len(self.sequence)' in left:
+                                    guarded = True
+                ob(rep, 'EXC-cursor', m.fq, f'look-ahead read `{norm_stmt(x)}` is bounds-tested', guarded,
+                   f'guarded by a test of {idx} against len(self.sequence)',
+                   f'`{norm_stmt(x)}` indexes the input at `{idx}` with no test of that index against the length of '
+                   f'the input: input that ends right after the cursor raises IndexError instead of a format error',
+                   m.loc(x), clause)
     # entry points must not require a checked cursor
     for n in ('parse', '_parse_sequence_start', '_parse_sequence_middle', '_parse_sequence_end', '_parse_modifications',
               '_parse_integer', '_peek'):
